@@ -13,6 +13,7 @@ func init() {
 }
 
 func runC05(p *Prog, r *Report) {
+	crossCutting(p, r, "C05.X", "protocol/rep", "protocol/respondent", "protocol/xrep", "protocol/xrespondent")
 	lockBalance(p, r, "C05.7/E1", "protocol/rep", "protocol/respondent", "protocol/xrep", "protocol/xrespondent")
 	q := NewQ(p, r)
 	for _, rel := range []string{"protocol/rep", "protocol/respondent"} {
@@ -123,9 +124,14 @@ func runC05(p *Prog, r *Report) {
 
 	r.Describe("C05.6/route-recorded", "the route back is a private copy (cooked) / the arrival pipe id (raw)")
 	backtraceCopyRule(p, r, "C05.6/route-recorded")
-	R := "C05.4/raw-routing"
+	c05Raw(p, r, "C05.4/raw-routing", []string{"protocol/xrep", "protocol/xrespondent"})
+}
+
+// c05Raw: the raw REP/RESPONDENT routing rules (C05.4; also used by C07 for xrespondent).
+func c05Raw(p *Prog, r *Report, R string, rels []string) {
+	q := NewQ(p, r)
 	r.Describe(R, "xrep/xrespondent.SendMsg: pipe id = first 4 header bytes (len checked), exactly those 4 stripped, comma-ok lookup, miss => free+nil, hit => that pipe's sendQ only; header restored on error returns")
-	for _, rel := range []string{"protocol/xrep", "protocol/xrespondent"} {
+	for _, rel := range rels {
 		mu := rel + ".socket.Mutex"
 		sm := q.Fn(R, rel, "socket", "SendMsg")
 		if !sm.OK() {
